@@ -72,6 +72,9 @@ structure Dev where
   parked : Nat          -- tasks in the device's own task set
   mixers : List Sub
   thermos : List Sub
+  vers : List (Nat × Nat) := []    -- `PhysicalDevice._frame_versions`: (request kind, version) last asked for
+  vpend : List (Nat × Nat) := []   -- frame-version tables dispatched to `update_frame_versions` (a task of the
+                                   -- device, `dispatch_nowait`) that it has not looked at yet
 deriving DecidableEq, Repr
 
 inductive CPhase
@@ -88,6 +91,9 @@ inductive Feed
   | foreign                     -- valid frame for another recipient: read() returns None
   | bad                         -- checksum error: read() raises a ProtocolError
   | undec                       -- wire-valid ecoMAX sensor data whose payload cannot be decoded: `handle_frame` raises
+  | versions (vs : List (Nat × Nat))
+                                -- ecoMAX sensor data (no mixers / thermostats) whose frame-version table is `vs`:
+                                -- (request kind, version) pairs, in wire order
   | orphan (addr : Nat)         -- frame for us from a known address that has no device class (ecoNET, broadcast):
                                 -- `get_device_entry` raises, the consumer logs it and carries on
 deriving DecidableEq, Repr
@@ -138,9 +144,13 @@ inductive Ev
   | advance (dt : Nat)
   | tick (k : Timer)
   | prodStart | lostRun | lostRun2 | shutdownRun | setupGo
+  | versionsGo                  -- the `update_frame_versions` tasks of the devices run
   | gate (addr : Nat)           -- a subscriber of the device-name event of `addr` that will not return until `release`
   | release                     -- every such subscriber returns
   | take                        -- a parked consumer takes the next frame from the read queue
+  | reopen                      -- the connection object is used again after `close()` has returned (a second
+                                -- `connect()` / `async with`, or a second `close()`): the finished call is forgotten,
+                                -- everything else is the object's state as `close()` left it
 deriving DecidableEq, Repr
 
 inductive Out
@@ -176,6 +186,9 @@ def kindSensors : Nat := lookupNat Gen.frameTypes "MESSAGE_SENSOR_DATA"
 /-- kind of the requests the harness queues on behalf of the user (not a set-up request) -/
 def kindUser : Nat := lookupNat Gen.frameTypes "REQUEST_PROGRAM_VERSION"
 def ecomaxAddr : Nat := lookupNat Gen.deviceTypes "ECOMAX"
+/-- request kinds whose version announcements the machine follows: parameterless requests that are not set-up
+requests (whether a set-up kind is still "supported" depends on the outcome of the set-up - C15's subject) -/
+def verKinds : List Nat := [kindUser, lookupNat Gen.frameTypes "REQUEST_CHECK_DEVICE"]
 /-- pseudo kind of a frame that reaches its device object but cannot be decoded there -/
 def kindUndec : Nat := 0
 
@@ -275,12 +288,18 @@ def handle (s : St) : Feed → St × List Out
       { d with mixers := ensureSubs d.mixers m, thermos := ensureSubs d.thermos t,
                setup := if d.setup = .waiting then .armed else d.setup })
     ({ s with devices := ds }, r.2 ++ [.deliver ecomaxAddr kindSensors])
+  | .versions vs =>
+    let r := ensureDev s.devices ecomaxAddr
+    let ds := updDev r.1 ecomaxAddr (fun d =>
+      { d with vpend := d.vpend ++ vs, setup := if d.setup = .waiting then .armed else d.setup })
+    ({ s with devices := ds }, r.2 ++ [.deliver ecomaxAddr kindSensors])
 
 /-- address and kind of a frame that is queued for the consumers (frames for somebody else and
 malformed frames never get that far) -/
 def Feed.addr? : Feed → Option (Nat × Nat)
   | .pw a => some (a, kindPassword)
   | .sensors _ _ => some (ecomaxAddr, kindSensors)
+  | .versions _ => some (ecomaxAddr, kindSensors)
   | .undec => some (ecomaxAddr, kindUndec)
   | .orphan a => some (a, kindUndec)
   | .foreign => none
@@ -456,20 +475,41 @@ def fireSetup (s : St) (addr : Nat) : St × List Out :=
       else ({ s with devices := updDev s.devices addr (fun d => { d with setup := .done }) }, [])
     | _ => (s, [])
 
+/-! ### frame-version announcements -/
+
+def setVer (vers : List (Nat × Nat)) (k v : Nat) : List (Nat × Nat) := (k, v) :: vers.filter (·.1 != k)
+
+/-- one entry of a frame-version table in `update_frame_versions`: a known, supported kind whose stored version is
+missing or different is requested again and the announced version is remembered (`has_frame_version`) -/
+def verEntry (acc : List (Nat × Nat) × List Nat) (p : Nat × Nat) : List (Nat × Nat) × List Nat :=
+  if verKinds.contains p.1 && acc.1.lookup p.1 != some p.2 then (setVer acc.1 p.1 p.2, acc.2 ++ [p.1]) else acc
+
+/-- `update_frame_versions` over the pending tables of one device: new version map, requests queued -/
+def verRun (d : Dev) : List (Nat × Nat) × List Nat := d.vpend.foldl verEntry (d.vers, [])
+
+/-- the `update_frame_versions` tasks run (in the order of the device map) -/
+def versionsGo (s : St) : St × List Out :=
+  if s.devices.any (fun d => !d.vpend.isEmpty) then
+    ({ s with devices := s.devices.map (fun d => { d with vers := (verRun d).1, vpend := [] }),
+              writeQ := s.writeQ ++ s.devices.flatMap (fun d => (verRun d).2) }, [])
+  else (s, [])
+
 /-! ### close() -/
 
 def shutSub (x : Sub) : Sub := { x with parked := 0 }
 
 /-- `EcoMAX.shutdown`: every mixer and every thermostat (both value sets), then the device -/
 def shutDev (d : Dev) : Dev :=
-  { d with parked := 0, mixers := d.mixers.map shutSub, thermos := d.thermos.map shutSub }
+  { d with parked := 0, vpend := [], mixers := d.mixers.map shutSub, thermos := d.thermos.map shutSub }
 
-def finishClose (s : St) (t0 : Nat) : St × List Out :=
-  ({ s with devices := s.devices.map shutDev, closing := .done t0 s.now }, [.closed])
-
-/-- `Connection.close` first cancels the connection's own tasks (a `_reconnect` task) -/
+/-- `Connection.close` cancels the connection's own tasks (a `_reconnect` task): once before
+`protocol.shutdown()`, and once more after it (daf0ebe: a retry task created while `shutdown()` waited) -/
 def cancelConn (s : St) : St :=
   if reconOwner s.recon = some .conn then { s with recon := .idle } else s
+
+/-- the devices are shut down, `shutdown()` returns; `Connection.close` cancels its tasks again and returns -/
+def finishClose (s : St) (t0 : Nat) : St × List Out :=
+  ({ (cancelConn s) with devices := s.devices.map shutDev, closing := .done t0 s.now }, [.closed])
 
 /-- `AsyncProtocol.shutdown` starts with `Queues.join()` -/
 def beginJoin (s : St) : St := latch { s with closing := .joining s.now, rj := s.rUnf == 0 }
@@ -546,10 +586,19 @@ def park (s : St) : Target → St
 
 def isDone : CPhase → Bool | .done _ _ => true | _ => false
 
-def step (s : St) (e : Ev) : St × List Out :=
-  if isDone s.closing then
-    (match e with | .advance dt => ({ s with now := s.now + dt }, []) | _ => (s, []))
-  else
+/-- the connection object is used again after `close()` has returned: the finished call is forgotten.
+(The guard never bites: a connection whose close() has returned is down - `C12.reopen_enabled`.) -/
+def reopenEv (s : St) : St × List Out :=
+  if s.connected ∨ s.lostMid ∨ s.recon ≠ .idle then (s, []) else ({ s with closing := .no, rj := false }, [])
+
+/-- a connection whose `close()` has returned: time passes, or the object is used again -/
+def stepDone (s : St) (e : Ev) : St × List Out :=
+  match e with
+  | .advance dt => ({ s with now := s.now + dt }, [])
+  | .reopen => reopenEv s
+  | _ => (s, [])
+
+def stepLive (s : St) (e : Ev) : St × List Out :=
   match e with
   | .connect =>
     if s.connected ∨ s.recon ≠ .idle ∨ s.producers ≠ 0 ∨ s.lostPending ∨ s.lostMid ∨ s.closing ≠ .no then (s, [])
@@ -568,9 +617,14 @@ def step (s : St) (e : Ev) : St × List Out :=
   | .lostRun2 => lostRun2 s
   | .shutdownRun => shutdownRun s
   | .setupGo => setupGo s
+  | .versionsGo => versionsGo s
   | .gate a => (gateEv s a, [])
   | .release => release s
   | .take => take s
+  | .reopen => (s, [])          -- only a connection whose `close()` has returned can be used "again"
+
+def step (s : St) (e : Ev) : St × List Out :=
+  if isDone s.closing then stepDone s e else stepLive s e
 
 /-- run a list of micro events; outputs are stamped with the time at which they were emitted -/
 def run (s : St) : List Ev → St × List (Nat × Out)
@@ -587,6 +641,9 @@ def internal? (s : St) : Option Ev :=
   if isDone s.closing then none
   -- a parked consumer woken by the producer's `put` runs before anything the producer started afterwards ...
   else if s.readQ ≠ [] ∧ idle s > 0 ∧ ¬ (s.producers > 0 ∧ s.pphase = .starting) then some .take
+  -- the `update_frame_versions` task a consumer has just started (`dispatch_nowait`) runs in the next iteration of the
+  -- loop: before a loss handler that became runnable in the same instant gets as far as re-establishing anything
+  else if s.devices.any (fun d => !d.vpend.isEmpty) then some .versionsGo
   else if s.lostPending then some .lostRun
   else if joinReady s then some .shutdownRun
   else if s.lostMid then some .lostRun2
@@ -640,8 +697,13 @@ inductive HEv
   | advanceBy (dt : Nat)    -- let `dt` ms pass, firing timers in order
 deriving Repr
 
+/-- `connect()` / `close()` on a connection whose `close()` has returned: the object is used again -/
+def reuses (s : St) (e : Ev) : Bool := isDone s.closing && (e == .connect || e == .close)
+
 def hevs (s : St) : HEv → List Ev
-  | .ext e => e :: settleEvs (step s e).1 settleFuel
+  | .ext e =>
+    if reuses s e then .reopen :: e :: settleEvs (step (step s .reopen).1 e).1 settleFuel
+    else e :: settleEvs (step s e).1 settleFuel
   | .ext2 e1 e2 => e1 :: e2 :: settleEvs (step (step s e1).1 e2).1 settleFuel
   | .advanceBy dt => advanceEvs s (s.now + dt) 4096
 
@@ -696,5 +758,24 @@ def deviceTasks (s : St) : Nat := setupTasks s + reqTasks s + devOwnTasks s + su
 
 /-- every task created by the protocol, the connection, a device or a sub-device -/
 def tasks (s : St) : Nat := s.producers + s.consumers + lostTasks s + connTasks s + deviceTasks s
+
+/-! ### the live tasks by coroutine name -/
+
+/-- children of `asyncio.gather(read.join(), write.join())` in `Queues.join` that have not finished -/
+def joinTasks (s : St) : Nat :=
+  (match s.closing with | .joining _ => 1 | _ => 0) + (if isJoining s.closing && !s.rj then 1 else 0)
+
+/-- every live task the library created, by the name of its coroutine function: the prediction the harness
+compares `asyncio.all_tasks()` with at every quiescent point (a task of one kind cannot stand in for a
+missing task of another kind) -/
+def taskNames (s : St) : List (String × Nat) :=
+  [("_reconnect", (if reconProtoTasks s.recon = 2 then 1 else 0) + connTasks s),
+   ("async_setup", setupTasks s),
+   ("connection_lost", (if s.lostPending then 1 else 0) + (if s.lostMid then 1 else 0) + (if reconProtoTasks s.recon = 0 then 0 else 1)),
+   ("frame_consumer", s.consumers),
+   ("frame_producer", s.producers),
+   ("join", joinTasks s),
+   ("request", reqTasks s),
+   ("set", devOwnTasks s + subOwnTasks s)]
 
 end PlumVerif.Conn
